@@ -15,3 +15,12 @@ Theorem C09_block_is_quadratic_form (R : comRingType) n (P A : 'M[R]_n) (rho : R
   = rho *: bil P v v + bil P w (A *m v) *+ 2 + rho *: bil P w w.
 Proof. exact: lyap_block_quad_sym. Qed.
 Print Assumptions C09_block_is_quadratic_form.
+
+(* DMDc variants return A = Q M Q^T with Q^T Q = 1: every eigenpair of A with a non-zero eigenvalue
+   is the lift of an eigenpair of the constrained reduced operator M with the same eigenvalue *)
+Theorem C09_dmdc_lift (F : fieldType) p r (Q : 'M[F]_(p, r)) (M : 'M[F]_r) (v : 'cV[F]_p) (lam : F) :
+  Q^T *m Q = 1%:M -> lam != 0 -> v != 0 ->
+  (Q *m M *m Q^T) *m v = lam *: v ->
+  M *m (Q^T *m v) = lam *: (Q^T *m v) /\ Q^T *m v != 0.
+Proof. exact: dmdc_lift_eigen. Qed.
+Print Assumptions C09_dmdc_lift.
